@@ -41,13 +41,15 @@ CHECKS.update({
         undecided="numerical equality with sum-of-products for all values; invariance under floating-point re-association; anything beyond the enumerated family",
     ),
     "C09": dict(
-        text="Axis-space typing (dimension order vs level order vs permutation) of tensor.py/_cffi_ownership.py and all order "
-        "conversions, canonical-structure dataflow, mapping-consumption, validation-dominates-construction and pickling "
-        "writer/reader agreement.",
-        technique="custom type system over the Python AST (D/L/Perm spaces) + structural dataflow / dominance checks",
+        text="Readers (taco_indices, taco_vals, items) and the validator interpreted over a symbolic stored structure for every "
+        "format up to order 3 (position recurrences, slice bounds, visited ranges, reported coordinate as polynomial normal forms; "
+        "the validator's accepting path must assume every clause of the canonical form); Tensor.from_aos interpreted over symbolic "
+        "coordinates, every order type of up to 3 entries checked against the canonical structure; constructors / to_format / to_dok "
+        "/ pickling pass data through; axis-space typing (dimension vs level order) of all order conversions.",
+        technique="abstract interpretation over symbolic integers/arrays (polynomial normal forms, path assumptions, one witness set per order type) + custom D/L/Perm type system over the Python AST",
         design_ref="DESIGN.md section 3 C09",
         engine="S",
-        undecided="value identity of summed duplicates / pickled floats (arithmetic)",
+        undecided="floating-point rounding of summed duplicates / pickled floats; more than 3 entries, orders beyond 3 (readers) / 2 (construction)",
     ),
     "C10": dict(
         text="Who-may-enter-kernel (single call site of the compiled pointer), must-pass-through by statement dominance "
